@@ -57,6 +57,18 @@ func c11DeathSite(msg string) (what, site string) {
 	return what, "?"
 }
 
+var c11DeathFuncRE = regexp.MustCompile(`^github\.com/gnolang/gno/(?:[^\s(]*/)?([^/\s(]+(?:\(\*[^)]+\))?[^/\s(]*)\(`)
+
+// c11DeathFunc returns the function of the first gno frame of a dead child's trace.
+func c11DeathFunc(msg string) string {
+	for _, l := range strings.Split(msg, "\n") {
+		if m := c11DeathFuncRE.FindStringSubmatch(l); m != nil {
+			return m[1]
+		}
+	}
+	return "?"
+}
+
 func c11InputOf(c c11Case) c11Input {
 	return c11Input{Mode: c.Mode, Name: c.Name, Path: c.Path, Files: c.Files, Gas: c.Gas}
 }
@@ -146,7 +158,7 @@ func c11Oracle(ctx *vk.Ctx, c c11Case) error {
 		}
 		ctx.NT()
 		key := "death@" + site
-		if ctx.Known(key) {
+		if ctx.Known(key) || ctx.Known("death@"+c11DeathFunc(res.DeathMsg)) {
 			ctx.Class("known:" + key)
 			return nil
 		}
@@ -195,10 +207,13 @@ func c11Oracle(ctx *vk.Ctx, c c11Case) error {
 		if !confirmed {
 			return nil
 		}
-		if ctx.Known("memory") {
+		ctx.NT()
+		key := "memory@" + o.Site
+		if ctx.Known(key) {
+			ctx.Class("known:" + key)
 			return nil
 		}
-		return fmt.Errorf("live memory far above the allocation limit (confirmed alone): %s", o.Detail)
+		return fmt.Errorf("live memory far above the allocation limit (confirmed alone): %s; key %q\n%s", o.Detail, key, o.Stack)
 	case c11GoRuntime, c11GoInvariant:
 		if !confirmed {
 			return nil
